@@ -7,6 +7,13 @@ from .interp import verify_unit
 from .world import World
 
 
+def name_in_module(u, mod):
+    import inspect
+
+    src = inspect.getsource(sys.modules["contracts." + mod])
+    return f'"{u.name}"' in src
+
+
 def main():
     mod = sys.argv[1]
     importlib.import_module("contracts." + mod)
@@ -14,6 +21,10 @@ def main():
     for name, u in REGISTRY.items():
         sel = [a for a in sys.argv[2:] if not a.startswith("-")]
         if sel and name not in sel:
+            continue
+        if u.trusted or (not sel and not u.__dict__.get("_mod", mod) == mod):
+            continue
+        if not sel and not name_in_module(u, mod):
             continue
         res = verify_unit(w, u, {"timeout_ms": 10000})
         print(f"== {name}: paths={res.paths} ended={res.ended} oblig={len(res.obligs)} "
